@@ -42,7 +42,11 @@ func execUnionExprUnion(context *exprContext, expr *grammar.Grammar) error {
 		return fmt.Errorf("cannot union non-NodeSet's")
 	}
 
-	context.result = unionCleanup(append(leftNodeSet, rightNodeSet...))
+	merged := make(NodeSet, 0, len(leftNodeSet)+len(rightNodeSet))
+	merged = append(merged, leftNodeSet...)
+	merged = append(merged, rightNodeSet...)
+
+	context.result = unionCleanup(merged)
 	return nil
 }
 
